@@ -45,7 +45,8 @@ def run_case(case):
     d = cfggen.derive(o)
     n, nb = d["n"], d["nb"]
     outstep, h5save = o["outstep"], o["SavePhaseSpace"]
-    cls = ["nb%d" % nb]
+    cls = ["nb%d" % nb] + (["other_machine"] if "BeamEnergy" in o else []) + (["fs_route"] if o.get("SynchrotronFrequency") else []) \
+        + (["steps_per_revolution"] if o.get("StepsPerRevolution") else [])
     if r.rc != 0 or "Finished." not in r.out:
         return fail(True, cls, "run failed rc=%s: %s | %s" % (r.rc, r.out[-400:], r.err[-400:]), "runfail")
     h = cli.H5(os.path.join(wd, "r.h5"))
@@ -186,6 +187,11 @@ def run_case(case):
                 m1 = (pr * ax).sum() * delta / pop[ri, b]
                 m2 = (pr * (ax - m1) ** 2).sum() * delta / pop[ri, b]
                 g1, g2 = float(h[mean_ds][ri, b]), float(h[rms_ds][ri, b])
+                if not (np.isfinite(m1) and np.isfinite(m2)) or abs(m2) > 1e36 or abs(m1) > 1e18:
+                    # a run that has blown up (all charge lost, then renormalised by a vanishing integral): the variance does
+                    # not fit into single precision any more, "inf" is then the correctly rounded stored value
+                    cls.append("moments_overflow_f32")
+                    continue
                 e = max(abs(g1 - m1), abs(g2 - np.sqrt(max(m2, 0)))) / max(pq, abs(m1), np.sqrt(max(m2, 0)))   # relative for blown-up (unstable) runs
                 met["mom_err"] = max(met.get("mom_err", 0), e)
                 if e > 3e-5:
@@ -276,7 +282,7 @@ def run_case(case):
 
 @st.composite
 def cases(draw):
-    o = draw(cfggen.base_config(nmin=16, nmax=64, min_laststep=3, max_laststep=60, big=24, via_rev=6))
+    o = draw(cfggen.base_config(nmin=16, nmax=64, min_laststep=3, max_laststep=60, big=24, via_rev=6, machine=3))
     d = cfggen.derive(o)
     L = d["laststep"]
     o["outstep"] = draw(st.sampled_from([0, 1, 1, 2, 2, 3, 3, 7, max(L, 1), L + 5]))
